@@ -19,6 +19,7 @@ from gv.effects import writes_in
 from gv.props import describe
 from gv.props.shared import branch_conditions
 from gv.props.shared import conj_literals
+from gv.props.shared import literal_facts
 from gv.report import Ctx
 from gv.report import cname
 
@@ -48,6 +49,148 @@ describe(
 BUILDER = "__schema_builder"
 BUILDER_MUTATORS = {"add_schema", "add_object", "pop", "popitem", "clear", "update", "setdefault"}
 EXEMPT_SUB = {"required"}  # synchronised separately (paired window / explicit clear)
+
+
+def _alternatives(f: ast.AST, e: ast.AST, facts: dict[str, bool] | None = None) -> list[ast.AST]:
+    """The values ``e`` can have in ``f``: locals replaced by their definitions, conditional expressions split."""
+    try:
+        alts = unfolded(f, e, facts) or [e]
+    except Exception:  # noqa: BLE001 - the node is not part of the CFG (e.g. inside a comprehension)
+        alts = [e]
+    out: list[ast.AST] = []
+
+    def split(a: ast.AST) -> None:
+        if isinstance(a, ast.IfExp):
+            known = (facts or {}).get(norm_stmt(a.test))
+            if known is not False:
+                split(a.body)
+            if known is not True:
+                split(a.orelse)
+        else:
+            out.append(a)
+
+    for a in alts:
+        split(a)
+    return out
+
+
+def _objects(f: ast.AST, name: ast.Name, facts: dict[str, bool] | None = None) -> list[ast.AST]:
+    """The objects the local ``name`` (a Name node read in ``f``) can denote where it is read: the values of the
+    definitions that reach the statement (each unfolded where it is made), the name itself when it can still be a
+    parameter.  An edit in place of the local between the definition and the read (``del b[k]``, ``b.add(x)``) does
+    not change WHICH object it is, which is what an ownership / aliasing rule asks."""
+    cfg = cfg_of(f)
+    if not cfg.has(name):
+        return [name]
+    here = cfg.node_of(name)
+    defs_ = {cfg.node_of(d): d for d in stmts_of(f) if isinstance(d, ast.Assign) and len(d.targets) == 1 and dotted(d.targets[0]) == name.id and cfg.has(d)}
+    others = [x for x in ast.walk(f) if isinstance(x, ast.Name) and x.id == name.id and isinstance(x.ctx, (ast.Store, ast.Del)) and not any(x is d.targets[0] for d in defs_.values())]
+    if others:
+        return [name]  # bound by something else than a plain assignment (loop variable, with ... as, augmented)
+    out: list[ast.AST] = []
+    for n_, d in defs_.items():
+        if n_ == here:  # the read is in the definition itself (`b = deepcopy(b)`): reached only around a loop
+            reaches = any(cfg.path(sx, here, avoid=set(defs_)) is not None for sx in cfg.g.successors(n_))
+        else:
+            reaches = cfg.path(n_, here, avoid=set(defs_) - {n_}) is not None
+        if reaches:
+            out += _alternatives(f, d.value, facts)
+    if cfg.path(cfg.entry, here, avoid=set(defs_)) is not None:
+        out.append(name)  # a parameter (or not bound yet)
+    return out or [name]
+
+
+def _feeds(f: ast.AST, is_target) -> list[tuple[ast.AST, list[ast.AST]]]:
+    """What ``f`` puts into the set / mapping T (``is_target(text)`` recognises the text of T, local aliases of T are
+    looked through), whatever the spelling:
+
+    ``T.update(E)``, ``T |= E``, ``T = T | E`` and, element by element, ``for x in E: [if c:] T.add(x)`` and
+    ``for k, v in E.items(): [if c:] T[k] = v``.  One record per feeding statement: (the statement or call, the
+    expressions that decide what is fed: E -- or the element when it is not the loop variable -- and the filters c).
+    """
+    out: list[tuple[ast.AST, list[ast.AST]]] = []
+
+    def denotes(e: ast.AST) -> bool:
+        alts = _objects(f, e) if isinstance(e, ast.Name) else [e]
+        return bool(alts) and all(is_target(norm_stmt(a, 300)) for a in alts)
+
+    def loop_vars(lp: ast.For | None) -> list[str]:
+        if lp is None:
+            return []
+        t = lp.target
+        return [x.id for x in (t.elts if isinstance(t, ast.Tuple) else [t]) if isinstance(x, ast.Name)]
+
+    def element_sources(lp: ast.For | None, conds: list[ast.AST], elems: list[ast.AST]) -> list[ast.AST]:
+        vs = loop_vars(lp)
+        src: list[ast.AST] = []
+        through_loop = False
+        over = lp.iter if lp is not None else None
+        if isinstance(over, ast.Call) and isinstance(over.func, ast.Attribute) and over.func.attr in ("keys", "items") and not over.args:
+            over = over.func.value
+        for e in elems:
+            if isinstance(e, ast.Name) and e.id in vs:
+                through_loop = True
+            elif isinstance(e, ast.Subscript) and isinstance(e.slice, ast.Name) and e.slice.id in vs and over is not None and norm_stmt(e.value) == norm_stmt(over):
+                through_loop = True  # `for k in M: T[k] = M[k]` enumerates M
+            else:
+                src.append(e)
+                through_loop = through_loop or bool(names_in(e) & set(vs))
+        if lp is not None and through_loop:
+            it = lp.iter
+            # `for k, v in M.items()` enumerates M
+            if isinstance(it, ast.Call) and isinstance(it.func, ast.Attribute) and it.func.attr == "items" and not it.args and isinstance(lp.target, ast.Tuple):
+                it = it.func.value
+            src.append(it)
+            src += conds
+        return src
+
+    def visit(stmts: list[ast.stmt], lp: ast.For | None, conds: list[ast.AST]) -> None:
+        for s in stmts:
+            if isinstance(s, (ast.FunctionDef, ast.AsyncFunctionDef, ast.ClassDef)):
+                continue
+            if isinstance(s, ast.For):
+                visit(s.body, s, [])
+                visit(s.orelse, lp, conds)
+                continue
+            if isinstance(s, ast.If):
+                visit(s.body, lp, [*conds, s.test])
+                visit(s.orelse, lp, [*conds, s.test])
+                continue
+            up = as_update(s)
+            if up is not None and isinstance(up[1], ast.BitOr) and denotes(up[0]):
+                out.append((s, [up[2]]))
+                continue
+            if isinstance(s, ast.Assign) and len(s.targets) == 1 and isinstance(s.targets[0], ast.Subscript) and denotes(s.targets[0].value):
+                out.append((s, element_sources(lp, conds, [s.targets[0].slice, s.value])))
+                continue
+            if isinstance(s, ast.Expr) and isinstance(s.value, ast.Call) and isinstance(s.value.func, ast.Attribute) and denotes(s.value.func.value):
+                c = s.value
+                if c.func.attr in ("update", "__ior__") and len(c.args) == 1 and not c.keywords:
+                    out.append((c, [c.args[0]]))
+                elif c.func.attr in ("add", "__setitem__", "setdefault") and c.args and not c.keywords:
+                    out.append((c, element_sources(lp, conds, list(c.args))))
+                continue
+            for field in ("body", "orelse", "finalbody"):
+                sub = getattr(s, field, None)
+                if isinstance(sub, list) and sub and isinstance(sub[0], ast.stmt):
+                    visit(sub, lp, conds)
+            for h in getattr(s, "handlers", []):
+                visit(h.body, lp, conds)
+
+    visit(f.body, None, [])
+    return out
+
+
+def _fresh_container(v: ast.AST) -> bool:
+    """``v`` builds a new container: copy(x) / deepcopy(x) / dict(x) / list(x) / set(x) / x.copy(), a display
+    (``{**x}``, ``[*x]``) or a comprehension (``{k: e for k, e in x.items()}``)."""
+    if isinstance(v, ast.Dict):
+        return bool(v.keys) and all(k is None for k in v.keys)  # {"a": x} HOLDS x, {**x} copies it
+    if isinstance(v, (ast.List, ast.Set)):
+        return bool(v.elts) and all(isinstance(e, ast.Starred) for e in v.elts)
+    if isinstance(v, (ast.DictComp, ast.ListComp, ast.SetComp)):
+        return True
+    return isinstance(v, ast.Call) and (dotted(v.func) in ("copy", "deepcopy", "copy.copy", "copy.deepcopy", "dict", "list", "set") or (isinstance(v.func, ast.Attribute) and v.func.attr == "copy" and not v.args))
 
 
 def _builder_mutations(cls_name: str, f: ast.FunctionDef) -> list[ast.AST]:
@@ -138,8 +281,11 @@ def check_json(ctx: Ctx) -> None:
     cv = rules.self_calls(v, "_create_validator")
     ok = len(cv) == 1
     if ok:
-        conds = [(norm_stmt(cfg.ast[t].test), val) for t, val in branch_conditions(cfg, cfg.node_of(cv[0])) if cfg.kind[t] == "test"]
-        ok = len(conds) == 1 and conds[0][1] and conds[0][0].replace("_JSONGrammar", "") in ("self.__validator is None", "not self.__validator")
+        # the one condition of the call, whatever its spelling and the order of the branches (the validator is a
+        # function or None: `not v` and `v is None` are the same test)
+        fv = {k.replace("_JSONGrammar", ""): val for k, val in literal_facts(cfg, cfg.node_of(cv[0])).items()}
+        ntests = len({t for t, _ in branch_conditions(cfg, cfg.node_of(cv[0])) if cfg.kind[t] == "test"})
+        ok = ntests == 1 and fv in ({"self.__validator is None": True}, {"self.__validator is not None": False}, {"self.__validator": False}, {"self.__validator == None": True}, {"self.__validator != None": False})
     ctx.ob("15.1-lazy-validator", cname(JG, "JSONGrammar", "_validate"), ok, "the validator is compiled exactly when it is absent (after an invalidation)", node=(cv or [v])[0])
     use = [c for c in walk_body(v) if isinstance(c, ast.Call) and isinstance(c.func, ast.Attribute) and c.func.attr.endswith("__validator")]
     ok = len(use) == 1 and cv and cfg.reachable(cfg.node_of(cv[0]), cfg.node_of(use[0])) and not cfg.reachable(cfg.node_of(use[0]), cfg.node_of(cv[0]))
@@ -147,7 +293,8 @@ def check_json(ctx: Ctx) -> None:
     s = cls.methods["schema"]
     cfgs = cfg_of(s)
     asg = [x for x in stmts_of(s) if isinstance(x, ast.Assign) and isinstance(x.targets[0], ast.Attribute) and x.targets[0].attr.endswith("__schema")]
-    ok = len(asg) == 1 and "to_schema" in norm_stmt(asg[0].value)
+    built = _alternatives(s, asg[0].value) if len(asg) == 1 else []  # possibly through a local
+    ok = len(asg) == 1 and bool(built) and all("to_schema" in norm_stmt(b_) for b_ in built)
     if ok:
         from gv.props.shared import literal_facts as _lf
 
@@ -155,7 +302,8 @@ def check_json(ctx: Ctx) -> None:
         ok = fs == {"self.__schema": False}
     ctx.ob("15.1-lazy-validator", cname(JG, "JSONGrammar", "schema"), ok, "the schema is rebuilt from the builder exactly when the cache is empty", node=(asg or [s])[0])
     # the cached schema embeds the required names: they must invalidate it too
-    in_window = asg and any(isinstance(w, ast.With) and any("__sync_required_names" in norm_stmt(i.context_expr) for i in w.items) and any(sub is asg[0] for sub in ast.walk(w)) for w in ast.walk(s))
+    exports = [c for c in walk_body(s) if isinstance(c, ast.Call) and last_attr(c) == "to_schema"]
+    in_window = asg and any(isinstance(w, ast.With) and any("__sync_required_names" in norm_stmt(i.context_expr) for i in w.items) and any(sub is asg[0] or any(sub is c for c in exports) for sub in ast.walk(w)) for w in ast.walk(s))
     rn = ctx.index.cls(RN, "RequiredNames")
     notifies = all(any(isinstance(c, ast.Call) and dotted(c.func) and "__grammar" in dotted(c.func) and last_attr(c) not in ("_check_name",) for c in walk_body(rn.methods[m])) for m in ("add", "discard") if m in rn.methods)
     ctx.ob("15.1-schema-required", cname(JG, "JSONGrammar", "schema"), (not in_window) or notifies, "the cached schema embeds the required names (it is built inside the required-names window) but adding/discarding a required name does not invalidate it: JSONGrammar.schema keeps the old 'required' list until the next structural edit", node=(asg or [s])[0], stmt="cached schema depends on required names, RequiredNames.add/discard do not invalidate")
@@ -172,10 +320,11 @@ def check_json(ctx: Ctx) -> None:
     w = cls.methods.get("__sync_required_names")
     ctx.need(w is not None, "JSONGrammar.__sync_required_names not found")
     ys = [x for x in walk_body(w) if isinstance(x, ast.Yield)]
-    up = [c for c in walk_body(w) if isinstance(c, ast.Call) and last_attr(c) == "update" and "required" in norm_stmt(c.func)]
+    fedw = _feeds(w, lambda t_: t_.replace("_JSONGrammar", "") == "self.__schema_builder.required")
+    up = [n_ for n_, _ in fedw]
     cl = [c for c in walk_body(w) if isinstance(c, ast.Call) and last_attr(c) == "clear" and "required" in norm_stmt(c.func)]
     cw = cfg_of(w)
-    ok = len(ys) == 1 and len(up) == 1 and len(cl) == 1 and cw.reachable(cw.node_of(up[0]), cw.node_of(ys[0])) and cw.reachable(cw.node_of(ys[0]), cw.node_of(cl[0])) and not cw.reachable(cw.node_of(cl[0]), cw.node_of(ys[0])) and "_required_names" in norm_stmt(up[0])
+    ok = len(ys) == 1 and len(up) == 1 and len(cl) == 1 and cw.reachable(cw.node_of(up[0]), cw.node_of(ys[0])) and cw.reachable(cw.node_of(ys[0]), cw.node_of(cl[0])) and not cw.reachable(cw.node_of(cl[0]), cw.node_of(ys[0])) and any("self._required_names" in norm_stmt(e_) for e_ in fedw[0][1])
     ctx.ob("15.5-window", cname(JG, "JSONGrammar", "__sync_required_names"), ok, "the required names are copied into the builder before the yield and removed after it (the builder's own list stays empty outside the window)", node=w)
 
 
@@ -217,6 +366,40 @@ def check_pydantic(ctx: Ctx) -> None:
     def sets_flag(f, value=True):
         return [s for s in stmts_of(f) if isinstance(s, ast.Assign) and isinstance(s.targets[0], ast.Attribute) and s.targets[0].attr in flag and dotted(s.targets[0].value) == "self" and isinstance(s.value, ast.Constant) and s.value.value is value]
 
+    def bare_(a: str) -> str:
+        return a.replace("_PydanticGrammar", "") if a.startswith("_PydanticGrammar__") else a
+
+    # the methods that (transitively) lower the flag
+    lowering = {n_ for n_, g_ in cls.methods.items() if any(isinstance(s_, (ast.Assign, ast.AugAssign, ast.AnnAssign)) and any(isinstance(t_, ast.Attribute) and t_.attr in flag for t_ in (s_.targets if isinstance(s_, ast.Assign) else [s_.target])) and s_ not in sets_flag(g_) for s_ in stmts_of(g_))}
+    grew = True
+    while grew:
+        grew = False
+        for n_, g_ in cls.methods.items():
+            if n_ not in lowering and any(isinstance(c_, ast.Call) and isinstance(c_.func, ast.Attribute) and bare_(c_.func.attr) in lowering for c_ in walk_body(g_)):
+                lowering.add(n_)
+                grew = True
+
+    def flagged(f, cfg, mn: int, obj: str) -> bool:
+        """The flag of ``obj`` is raised when the mutation ``mn`` is reached, or is raised on every path from it to the
+        exit: either way no path leaves the method with edited fields and a lowered flag.  Raised when reached: every
+        path from the entry, and from anything that may lower the flag (an assignment of something else than True,
+        a call of a method that lowers it), passes `obj.<flag> = True` before the mutation; and nothing lowers the
+        flag by hand afterwards (a later __rebuild_model() is fine: it rebuilds the model from the edited fields)."""
+        ups = [s_ for s_ in stmts_of(f) if isinstance(s_, ast.Assign) and isinstance(s_.targets[0], ast.Attribute) and s_.targets[0].attr in flag and dotted(s_.targets[0].value) == obj and isinstance(s_.value, ast.Constant) and s_.value.value is True]
+        up_nodes = {cfg.node_of(s_) for s_ in ups}
+        if cfg.escape_path(mn, up_nodes) is None:
+            return True
+        by_hand = [s_ for s_ in stmts_of(f) if isinstance(s_, (ast.Assign, ast.AugAssign, ast.AnnAssign, ast.Delete)) and not any(s_ is u_ for u_ in ups) and any(isinstance(t_, ast.Attribute) and t_.attr in flag for t_ in (s_.targets if isinstance(s_, (ast.Assign, ast.Delete)) else [s_.target]))]
+        by_call = [c_ for c_ in walk_body(f) if isinstance(c_, ast.Call) and isinstance(c_.func, ast.Attribute) and bare_(c_.func.attr) in lowering]
+        # a method of the object that is not one of this class (inherited, e.g. clear()) may call one that lowers it
+        by_call += [c_ for c_ in walk_body(f) if isinstance(c_, ast.Call) and isinstance(c_.func, ast.Attribute) and (dotted(c_.func.value) in (obj, "self") or norm_stmt(c_.func.value).startswith("super(")) and bare_(c_.func.attr) not in cls.methods]
+        # an unknown writer of the instance dictionary may lower it too
+        by_call += [c_ for c_ in walk_body(f) if isinstance(c_, ast.Call) and isinstance(c_.func, ast.Attribute) and c_.func.attr in ("update", "__setattr__") and "__dict__" in norm_stmt(c_.func.value)] + [c_ for c_ in walk_body(f) if isinstance(c_, ast.Call) and dotted(c_.func) == "setattr"]
+        lower_nodes = ({cfg.node_of(x_) for x_ in by_hand + by_call if cfg.has(x_)} - up_nodes) - {mn}
+        if not up_nodes or any(cfg.path(src_, mn, avoid=up_nodes) is not None for src_ in [cfg.entry, *lower_nodes]):
+            return False
+        return not any(cfg.reachable(mn, cfg.node_of(s_)) for s_ in by_hand if cfg.has(s_))
+
     for name, f in sorted(cls.methods.items()):
         if name in ("__init__", "_clear", "_copy"):
             continue
@@ -229,6 +412,8 @@ def check_pydantic(ctx: Ctx) -> None:
         for m in muts:
             mn = cfg.node_of(m)
             esc = cfg.escape_path(mn, acts)
+            if esc is not None and flagged(f, cfg, mn, "self"):
+                esc = None  # the flag is already raised when the fields are edited, and stays so
             ctx.ob("15.1b-flag", con, esc is None, f"{name} edits the model fields (`{norm_stmt(m, 60)}`) and can return without setting __model_needs_rebuild: validation keeps using the model compiled for the previous definition [{cfg.describe_path(esc)}]", node=m if isinstance(m, ast.stmt) else rules.enclosing_stmt(f, m))
     # _copy gives the COPY a model with fields of its own: the model just derived was compiled from its base class, not
     # from those fields (which may have been edited since), so the copy must be flagged for rebuild, whatever the
@@ -240,7 +425,7 @@ def check_pydantic(ctx: Ctx) -> None:
         flags_ = [s_ for s_ in stmts_of(cp_) if isinstance(s_, ast.Assign) and isinstance(s_.targets[0], ast.Attribute) and s_.targets[0].attr in flag and dotted(s_.targets[0].value) == other]
         if writes:
             cfgc = cfg_of(cp_)
-            ok = len(flags_) >= 1 and all(isinstance(s_.value, ast.Constant) and s_.value.value is True for s_ in flags_) and all(cfgc.escape_path(cfgc.node_of(w_), {cfgc.node_of(s_) for s_ in flags_}) is None for w_ in writes)
+            ok = len(flags_) >= 1 and all(isinstance(s_.value, ast.Constant) and s_.value.value is True for s_ in flags_) and all(flagged(cp_, cfgc, cfgc.node_of(w_), other) for w_ in writes)
             ctx.ob("15.1b-flag", cname(PG, "PydanticGrammar", "_copy"), ok, "_copy installs fields in the model of the copy: the copy must be flagged for rebuild (True), not given the flag of the original (False after a validation, although the derived model was not compiled from these fields): the copy would validate a stale definition", node=(flags_ or writes)[0], stmt="the copy is flagged for rebuild after its fields are installed")
     ctx.floor("15.1b-flag", 6)
     # the model is rebuilt before every use
@@ -282,11 +467,11 @@ def check_base(ctx: Ctx) -> None:
     cp = [c for c in walk_body(f) if isinstance(c, ast.Call) and norm_stmt(c.func) == "self._copy"]
     ok = len(cp) == 1 and rq and cfg_of(f).reachable(cfg_of(f).node_of(cp[0]), cfg_of(f).node_of(rq[0])) and not cfg_of(f).reachable(cfg_of(f).node_of(rq[0]), cfg_of(f).node_of(cp[0]))
     ctx.ob("15.6-copy-owns-required", con, bool(ok), "the elements must be copied before the required names are bound (the names are checked against the copy)", node=(cp or [f])[0], stmt="_copy before binding the required names")
-    du = [c for c in walk_body(f) if isinstance(c, ast.Call) and norm_stmt(c.func) == f"{gname}._defaults.update"]
-    ctx.ob("15.6-copy-owns-required", con, len(du) == 1 and norm_stmt(du[0].args[0]) == "self._defaults", "the copy gets its own defaults mapping, filled from the original", node=(du or [f])[0], stmt="defaults copied into the copy's own mapping")
+    du = _feeds(f, lambda t_: t_ == f"{gname}._defaults")
+    ctx.ob("15.6-copy-owns-required", con, len(du) == 1 and [norm_stmt(e_) for e_ in du[0][1]] == ["self._defaults"], "the copy gets its own defaults mapping, filled from the original", node=du[0][0] if du else f, stmt="defaults copied into the copy's own mapping")
     for attr in ("to_namespaced", "from_namespaced"):
         a = [s_ for s_ in stmts_of(f) if isinstance(s_, ast.Assign) and dotted(s_.targets[0]) == f"{gname}.{attr}"]
-        ok = len(a) == 1 and isinstance(a[0].value, ast.Call) and dotted(a[0].value.func) in ("copy", "dict", "deepcopy")
+        ok = len(a) == 1 and all(_fresh_container(v_) for v_ in _alternatives(f, a[0].value))
         ctx.ob("15.6-copy-owns-required", con, ok, f"the copy must own its {attr} mapping", node=(a or [f])[0], stmt=f"{attr} copied")
     # the elements themselves: each back-end's _copy gives the copy a container of its own
     for rel_, cn_ in ((SG, "SimpleGrammar"), (JG, "JSONGrammar"), (PG, "PydanticGrammar")):
@@ -302,15 +487,19 @@ def check_base(ctx: Ctx) -> None:
             attr = st.targets[0].attr
             bare = attr.replace(f"_{cn_}", "") if attr.startswith(f"_{cn_}__") else attr
             v_ = st.value
-            src_self = any(isinstance(n_, ast.Attribute) and dotted(n_.value) == "self" and n_.attr in (attr, bare, mangle(cn_, bare)) for n_ in ast.walk(v_))
+            vals = _alternatives(cp_, v_)  # the value may come through a local
+            src_self = any(isinstance(n_, ast.Attribute) and dotted(n_.value) == "self" and n_.attr in (attr, bare, mangle(cn_, bare)) for a_ in vals for n_ in ast.walk(a_))
             if not src_self:
                 continue
             ann = annotations.get(bare, annotations.get(attr, ""))
             alias = norm_stmt(mod_.assigns[ann]) if ann in mod_.assigns else ann
             is_class_valued = alias.startswith(("type[", "Type["))
-            copies = isinstance(v_, ast.Call) and (dotted(v_.func) in ("copy", "deepcopy", "dict", "list") or (isinstance(v_.func, ast.Attribute) and v_.func.attr == "copy"))
-            fresh_class = isinstance(v_, ast.Call) and dotted(v_.func) == "create_model"
-            if isinstance(v_, (ast.Name, ast.Constant)) or (isinstance(v_, ast.Attribute) and attr.endswith("needs_rebuild")):
+            copies = all(_fresh_container(a_) for a_ in vals)
+            bare_ann = " | ".join(p_ for p_ in (q_.strip() for q_ in alias.split("|")) if p_ != "None")
+            if bare_ann.startswith(("Callable", "collections.abc.Callable", "typing.Callable")):
+                continue  # a function has no elements to own (copy(f) is f itself): sharing it is what a copy does
+            fresh_class = all(isinstance(a_, ast.Call) and dotted(a_.func) == "create_model" for a_ in vals)
+            if all(isinstance(a_, (ast.Name, ast.Constant)) for a_ in vals) or (isinstance(v_, ast.Attribute) and attr.endswith("needs_rebuild")):
                 continue  # flags and scalars
             ok_ = fresh_class if is_class_valued else (copies or fresh_class)
             why = "copy()/deepcopy() of a CLASS return the class itself: the copy and the original then edit the same `model_fields`" if is_class_valued else "the container of the elements is shared with the original"
@@ -386,11 +575,14 @@ def check_base(ctx: Ctx) -> None:
     f = cls.methods["update"]
     con = cname(BG, "BaseGrammar", "update")
     h = calls(f, lambda c: norm_stmt(c.func) == "self._update")
-    du = calls(f, lambda c: norm_stmt(c.func) == "self._defaults.update")
-    ok = len(h) == 1 and len(du) == 1 and "excluded_names" in names_in(du[0]) and "grammar._defaults" in norm_stmt(du[0], 300)
+    # whatever the spelling of the bulk operation (update / |= / element by element in a loop)
+    fd = _feeds(f, lambda t_: t_ == "self._defaults")
+    du = [n_ for n_, _ in fd]
+    ok = len(h) == 1 and len(fd) == 1 and any("excluded_names" in names_in(e_) for e_ in fd[0][1]) and any("grammar._defaults" in norm_stmt(e_, 300) for e_ in fd[0][1])
     ctx.ob("15.2-update", con, ok, "updating from a grammar brings its defaults, except for the excluded names", node=(du or [f])[0])
-    rq = [s for s in stmts_of(f) if isinstance(s, ast.AugAssign) and dotted(s.target) == "self._required_names" and isinstance(s.op, ast.BitOr)]
-    ok = len(rq) == 1 and "excluded_names" in names_in(rq[0].value) and "grammar._required_names" in norm_stmt(rq[0].value, 300)
+    fr = _feeds(f, lambda t_: t_ == "self._required_names")
+    rq = [n_ for n_, _ in fr]
+    ok = len(fr) == 1 and any("excluded_names" in names_in(e_) for e_ in fr[0][1]) and any("grammar._required_names" in norm_stmt(e_, 300) for e_ in fr[0][1])
     ctx.ob("15.2-update", con, ok, "updating from a grammar adds its required names, except for the excluded names", node=(rq or [f])[0], stmt="required_names |= other's required minus excluded")
     ok = h and du and rq and cfg_of(f).reachable(cfg_of(f).node_of(h[0]), cfg_of(f).node_of(du[0])) and cfg_of(f).reachable(cfg_of(f).node_of(h[0]), cfg_of(f).node_of(rq[0])) and not cfg_of(f).reachable(cfg_of(f).node_of(du[0]), cfg_of(f).node_of(h[0]))
     ctx.ob("15.2-update", con, bool(ok), "the elements must be added before their defaults and required names are (both are checked against the elements)", node=(h or [f])[0], stmt="_update before defaults/required")
@@ -510,15 +702,15 @@ def check_update_source_untouched(ctx: Ctx) -> None:
                 n += 1
                 ctx.ob("15.7-source-untouched", con, False, f"`{norm_stmt(st, 60)}` edits the grammar given as argument: `g.update(other, excluded_names=...)` must leave `other` as it was", node=st)
                 continue
-            defs_ = {cfg.node_of(d): d for d in stmts_of(f) if isinstance(d, ast.Assign) and any(dotted(t) == root.id for t in d.targets) and cfg.has(d)}
-            here = cfg.node_of(st)
-            reaching = [d for n_, d in defs_.items() if cfg.path(n_, here, avoid=set(defs_) - {n_}) is not None]
-            from_src = [d for d in reaching if src in {x.id for x in ast.walk(d.value) if isinstance(x, ast.Name)}]
+            # what the local holds where it is edited: its definitions unfolded through other locals (`b = src.x;
+            # b = deepcopy(b)`), under the conditions of the edit (`b = deepcopy(src.x) if c else src.x; if c: del b[k]`)
+            vals = _objects(f, root, literal_facts(cfg, cfg.node_of(st)))
+            from_src = [v_ for v_ in vals if not (isinstance(v_, ast.Name) and v_.id == root.id) and src in names_in(v_)]
             if not from_src:
                 continue
             n += 1
-            ok = all(isinstance(d.value, ast.Call) and dotted(d.value.func) in ("deepcopy", "copy.deepcopy") for d in from_src)
-            ctx.ob("15.7-source-untouched", con, ok, f"`{norm_stmt(st, 50)}` removes names from `{root.id}`, which is taken from the other grammar without a deep copy ({', '.join(norm_stmt(d.value, 40) for d in from_src)}): a shallow copy shares the tables of properties, so the OTHER grammar loses the excluded names while its required names and defaults still list them", node=st, stmt=f"{root.id} edited in _update is a deep copy of the source's")
+            ok = all(isinstance(v_, ast.Call) and dotted(v_.func) in ("deepcopy", "copy.deepcopy") for v_ in from_src)
+            ctx.ob("15.7-source-untouched", con, ok, f"`{norm_stmt(st, 50)}` removes names from `{root.id}`, which is taken from the other grammar without a deep copy ({', '.join(norm_stmt(v_, 40) for v_ in from_src)}): a shallow copy shares the tables of properties, so the OTHER grammar loses the excluded names while its required names and defaults still list them", node=st, stmt=f"{root.id} edited in _update is a deep copy of the source's")
         if cname_ == "JSONGrammar":
             ctx.ob("15.7-source-untouched", con, n >= 1, "the exclusion of names in JSONGrammar._update was not recognised", node=f, stmt="exclusion recognised")
 
@@ -546,11 +738,17 @@ def check_builder_required(ctx: Ctx) -> None:
             if not (isinstance(c, ast.Call) and isinstance(c.func, ast.Attribute)):
                 continue
             recv = c.func.value
+            if isinstance(recv, ast.Name) and c.func.attr in ("update", "add", "add_object", "add_schema"):
+                # a local alias of the builder / of its `required` set
+                ra = _objects(m, recv)
+                if len(ra) == 1 and isinstance(ra[0], ast.Attribute):
+                    recv = ra[0]
             feeds = None
             if c.func.attr == "add_object" and is_builder(recv) and dotted(recv.value) == "self":
                 feeds = "add_object makes every key required"
             elif c.func.attr == "add_schema" and is_builder(recv) and dotted(recv.value) == "self" and c.args:
-                alts = unfolded(m, c.args[0]) or [c.args[0]]
+                # under the conditions of the call (a conditional expression decided by the same test is resolved)
+                alts = (_objects if isinstance(c.args[0], ast.Name) else _alternatives)(m, c.args[0], literal_facts(cfg, cfg.node_of(c)))
                 harmless = all(
                     is_builder(a_)
                     or (isinstance(a_, ast.Call) and last_attr(a_) in ("deepcopy", "copy") and a_.args and is_builder(a_.args[0]))
@@ -573,11 +771,14 @@ def check_builder_required(ctx: Ctx) -> None:
     f = ctx.index.method(JG, "JSONGrammar", "update_from_schema")
     con = cname(JG, "JSONGrammar", "update_from_schema")
     par = f.args.args[1].arg
-    upd = [s_ for s_ in stmts_of(f) if as_update(s_) and dotted(as_update(s_)[0]) == "self._required_names"] + [s_ for s_ in stmts_of(f) if isinstance(s_, ast.Expr) and isinstance(s_.value, ast.Call) and norm_stmt(s_.value.func).startswith("self._required_names.")]
-    ok = len(upd) == 1
+    fed = _feeds(f, lambda t_: t_ == "self._required_names")
+    upd = [n_ for n_, _ in fed]
+    # any other operation on the required names (an operator other than |, a method that is not a feed) is not understood
+    other_ops = [s_ for s_ in stmts_of(f) if (as_update(s_) and dotted(as_update(s_)[0]) == "self._required_names" and not any(n_ is s_ for n_ in upd)) or (isinstance(s_, ast.Expr) and isinstance(s_.value, ast.Call) and norm_stmt(s_.value.func).startswith("self._required_names.") and not any(n_ is s_.value for n_ in upd))]
+    ok = len(fed) == 1 and not other_ops
     if ok:
-        src = as_update(upd[0])[2] if as_update(upd[0]) else upd[0].value.args[0]
-        ok = par in names_in(src) and "required" in norm_stmt(src) and not any(is_builder(n_) for n_ in ast.walk(src))
+        srcs = [a_ for e_ in fed[0][1] for a_ in _alternatives(f, e_)]
+        ok = any(par in names_in(e_) for e_ in srcs) and any("required" in norm_stmt(e_, 300) for e_ in srcs) and not any(is_builder(n_) for e_ in srcs for n_ in ast.walk(e_))
     ctx.ob("15.8-builder-required", con, ok, "the required names added by update_from_schema must be those listed by the schema given (schema['required']): the builder's own `required` is the INTERSECTION with what it already holds, i.e. nothing once a first schema has been processed", node=(upd or [f])[0], stmt="required names of the imported schema")
 
 
@@ -627,11 +828,22 @@ WITNESSES = [
     {"name": "getitem-writes-state", "file": JG, "old": "    def __getitem__(self, name: str) -> Any:\n        return self.__schema_builder[name]", "new": "    def __getitem__(self, name: str) -> Any:\n        self.__schema = {}\n        return self.__schema_builder[name]", "expect": "15.5"},
     {"name": "copy-shares-required-names", "file": BG, "old": "        grammar._required_names = RequiredNames(grammar, self._required_names)", "new": "        grammar._required_names = copy(self._required_names)", "expect": "15.6"},
     {"name": "copy-binds-to-original", "file": BG, "old": "        grammar._required_names = RequiredNames(grammar, self._required_names)", "new": "        grammar._required_names = RequiredNames(self, self._required_names)", "expect": "15.6"},
+    {"name": "copy-holds-the-original-table", "file": SG, "old": "grammar.__names_to_types = self.__names_to_types.copy()", "new": "grammar.__names_to_types = {\"all\": self.__names_to_types}", "expect": "15.6"},
+    {"name": "copy-defaults-loop-over-its-own", "file": BG, "old": "        grammar._defaults.update(self._defaults)\n", "new": "        for name, value in grammar._defaults.items():\n            grammar._defaults[name] = value\n", "expect": "15.6"},
+    {"name": "setstate-flag-raised-then-lowered-by-clear", "file": PG, "old": "            self._clear()\n            self.__model.model_fields = cast(\"dict[str, FieldInfo]\", fields_info)\n            self.__model_needs_rebuild = True\n", "new": "            self.__model_needs_rebuild = True\n            self._clear()\n            self.__model.model_fields = cast(\"dict[str, FieldInfo]\", fields_info)\n", "expect": "15.1b"},
+    {"name": "delitem-flag-raised-on-one-branch", "file": PG, "old": "        del self.__model.model_fields[name]\n        self.__model_needs_rebuild = True\n\n    def _copy", "new": "        if name:\n            self.__model_needs_rebuild = True\n        del self.__model.model_fields[name]\n\n    def _copy", "expect": "15.1b"},
+    {"name": "update-local-then-shallow-copy", "file": JG, "old": "        if excluded_names:\n            schema_builder = deepcopy(grammar.__schema_builder)\n", "new": "        schema_builder = grammar.__schema_builder\n        if excluded_names:\n            schema_builder = copy(schema_builder)\n", "expect": "15.7"},
+    {"name": "import-loop-reads-the-builder", "file": JG, "old": "        self._required_names |= set(schema.get(\"required\", ()))\n", "new": "        for required_name in self.__schema_builder.required:\n            self._required_names.add(required_name)\n", "expect": "15.8"},
+    {"name": "update-defaults-loop-ignores-exclusions", "file": BG, "old": "        self._defaults.update({\n            k: v for k, v in grammar._defaults.items() if k not in excluded_names\n        })\n", "new": "        for k, v in grammar._defaults.items():\n            self._defaults[k] = v\n", "expect": "15.2"},
     {"name": "sync-window-never-closed", "file": JG, "old": "        self.__schema_builder.required.update(self._required_names)\n        yield\n        self.__schema_builder.required.clear()", "new": "        self.__schema_builder.required.update(self._required_names)\n        yield", "expect": "15.5"},
 ]
 TWINS = [
     {"name": "invalidate-through-local-alias", "file": JG, "old": "        del self.__schema_builder[name]\n        self.__init_dependencies()", "new": "        del self.__schema_builder[name]\n        if True:\n            self.__init_dependencies()"},
     {"name": "delitem-order", "file": BG, "old": "        self._defaults.pop(name, None)\n        self._required_names.discard(name)\n        self._delitem(name)", "new": "        self._required_names.discard(name)\n        self._defaults.pop(name, None)\n        self._delitem(name)"},
     {"name": "rename-default-with-a-local", "file": BG, "old": "        if current_name in self._defaults:\n            self._defaults[new_name] = self._defaults.pop(current_name)", "new": "        if current_name in self._defaults:\n            moved = self._defaults.pop(current_name)\n            self._defaults[new_name] = moved"},
+    {"name": "copy-table-by-unpacking", "file": SG, "old": "grammar.__names_to_types = self.__names_to_types.copy()", "new": "grammar.__names_to_types = {**self.__names_to_types}"},
+    {"name": "copy-flag-before-fields", "file": PG, "old": "        grammar.__model.model_fields = dict(self.__model.model_fields)\n        grammar.__model_needs_rebuild = True\n", "new": "        grammar.__model_needs_rebuild = True\n        grammar.__model.model_fields = dict(self.__model.model_fields)\n"},
+    {"name": "update-local-then-deepcopy", "file": JG, "old": "        if excluded_names:\n            schema_builder = deepcopy(grammar.__schema_builder)\n", "new": "        schema_builder = grammar.__schema_builder\n        if excluded_names:\n            schema_builder = deepcopy(schema_builder)\n"},
+    {"name": "update-required-element-by-element", "file": BG, "old": "        self._required_names |= (grammar.keys() - excluded_names).intersection(\n            grammar._required_names.get_names_difference(excluded_names)\n        )\n", "new": "        for name in (grammar.keys() - excluded_names).intersection(\n            grammar._required_names.get_names_difference(excluded_names)\n        ):\n            self._required_names.add(name)\n"},
     {"name": "validator-copy-with-braces", "file": JG, "old": "        schema = dict(self.schema)\n", "new": "        schema = {**self.schema}\n"},
 ]
